@@ -1,4 +1,5 @@
 import MxlVerif.Lemmas.C12Closure2
+import MxlVerif.Lemmas.C12Deriv
 import MxlVerif.Model.C12Witness
 namespace Mxl.C12
 
@@ -54,6 +55,37 @@ theorem C12_jacobian_is_derivative_of_rhs (sc : SContent) (hwf : sc.wf = true) (
         dsh[i]? = some (evalS (symEnv sc cache xs) e + h * evalS (symEnv sc cache xs) (D x e)
                           + h * h * remV (symEnv sc cache xs) x h e) :=
   jac_of_rhs sc hwf t xs j h es ds0 dsh hj hs h0 hh
+
+/-- **the formal derivative IS the derivative** (Mathlib's `HasDerivAt` over the normed field ℚ, the model's own
+    evaluator): for every expression of the rate-law fragment (`+ − × ÷`, unary minus, natural powers), every
+    symbol `x` and every environment at which no denominator vanishes, `v ↦ e[x := v]` is differentiable at
+    `ρ x` with derivative the value of `D x e`.  (`C12_formal_deriv_correct` above is the explicit second-order
+    expansion; this is the limit statement.) -/
+theorem C12_formal_deriv_hasDerivAt (ρ : Name → Rat) (x : Name) (e : SExpr) (hd : DenOK ρ e) :
+    HasDerivAt (fun v : ℚ => evalS (upd ρ x v) e) (evalS ρ (D x e)) (ρ x) :=
+  hasDerivAt_evalS_self ρ x e hd
+
+/-- … at any base value `a` of the symbol, not only the environment's own -/
+theorem C12_formal_deriv_hasDerivAt_at (ρ : Name → Rat) (x : Name) (a : Rat) (e : SExpr)
+    (hd : DenOK (upd ρ x a) e) :
+    HasDerivAt (fun v : ℚ => evalS (upd ρ x v) e) (evalS (upd ρ x a) (D x e)) a :=
+  hasDerivAt_evalS ρ x a e hd
+
+/-- **the symbolic Jacobian is the derivative of the numeric right-hand side** (`HasDerivAt`).  For every
+    well-formed model that converts, every time, state and coordinate `j`: let `F v` be what `Model.__call__`
+    returns when the `j`-th state value is `v` (the others as in `xs`).  Then component `i` of `F` is
+    differentiable at `xs[j]` and its derivative is entry `(i, j)` of `jacobianOf es var_names` evaluated at the
+    state and the model's parameter values — at every state at which no denominator of equation `i` vanishes. -/
+theorem C12_jacobian_hasDerivAt (sc : SContent) (hwf : sc.wf = true) (t : Rat) (xs : List Rat) (j : Nat)
+    (es : List SExpr) (hj : j < xs.length) (hs : toSymbolic sc = .ok es)
+    (F : Rat → List Rat) (hF : ∀ v, callRhs sc.toContent t (xs.set j v) = .ok (F v)) :
+    ∃ cache x, createCache sc.toContent = .ok cache ∧ cache.varNames[j]? = some x ∧
+      ∀ (i : Nat) (e : SExpr), es[i]? = some e → DenOK (symEnv sc cache xs) e →
+        ((jacobianOf es cache.varNames)[i]?.bind (·[j]?)) = some (D x e) ∧
+        HasDerivAt (fun v : ℚ => (F v).getD i 0) (evalS (symEnv sc cache xs) (D x e)) xs[j] := by
+  obtain ⟨cache, x, hc, hx, h⟩ := jac_hasDerivAt sc hwf t xs j es hj hs F hF
+  refine ⟨cache, x, hc, hx, fun i e hie hd => ⟨?_, h i e hie hd⟩⟩
+  simp only [jacobianOf, List.getElem?_map, hie, Option.map_some, Option.bind_some, hx]
 
 /-- **order independence (full statement).**  Take a well-formed model built from functions
     that translate, whose derived quantities and reactions mention only variables, plain
@@ -178,5 +210,14 @@ example : witnessMM.wf = true := by decide +kernel
 example : isOk (toSymbolic witnessMM) = true := by decide +kernel
 example : isOk (callRhs witnessMM.toContent 0 [1, 2]) = true := by decide +kernel
 example : (simJacobian witnessMM).isSome = true := by decide +kernel
+
+-- `C12_formal_deriv_hasDerivAt` is not vacuous: Michaelis–Menten `vmax·s/(km+s)` at `s = vmax = km = 2` has no
+-- vanishing denominator, and its derivative there is `(2·4 − 4·1)/16 = 1/4`
+example : DenOK (fun _ => 2) (.div (.mul (.sym "vmax") (.sym "s")) (.add (.sym "km") (.sym "s"))) := by
+  refine ⟨⟨trivial, trivial⟩, ⟨trivial, trivial⟩, ?_⟩
+  show (2 : Rat) + 2 ≠ 0
+  decide +kernel
+example : evalS (fun _ => 2) (D "s" (.div (.mul (.sym "vmax") (.sym "s")) (.add (.sym "km") (.sym "s")))) = 1 / 4 := by
+  decide +kernel
 
 end Mxl.C12
